@@ -216,7 +216,9 @@ func (f *aggrMinFunc) Update(kv KVPair, args []Expression, ctx *ExecuteCtx) erro
 		f.isFloat = isFloat
 		return nil
 	}
-	if f.isFloat {
+	// Two integers are compared as integers; as soon as one side is a float
+	// the float images decide (3.5 is not its integer part 3)
+	if f.isFloat || isFloat {
 		if f.fmin > fval {
 			f.imin = ival
 			f.fmin = fval
@@ -276,7 +278,9 @@ func (f *aggrMaxFunc) Update(kv KVPair, args []Expression, ctx *ExecuteCtx) erro
 		f.isFloat = isFloat
 		return nil
 	}
-	if f.isFloat {
+	// Two integers are compared as integers; as soon as one side is a float
+	// the float images decide (3.5 is not its integer part 3)
+	if f.isFloat || isFloat {
 		if f.fmax < fval {
 			f.imax = ival
 			f.fmax = fval
